@@ -378,6 +378,7 @@ type (
 
 func (p *schemaValidatorsPool) BorrowValidator() *SchemaValidator {
 	s := p.Get().(*SchemaValidator)
+	verifBorrow("schemaValidators", s)
 
 	p.mx.Lock()
 	defer p.mx.Unlock()
@@ -397,6 +398,9 @@ func (p *schemaValidatorsPool) BorrowValidator() *SchemaValidator {
 
 func (p *schemaValidatorsPool) RedeemValidator(s *SchemaValidator) {
 	// NOTE: s might be nil. In that case, Put is a noop.
+	if verifRedeem("schemaValidators", s) {
+		return
+	}
 	p.mx.Lock()
 	defer p.mx.Unlock()
 	x, ok := p.debugMap[s]
@@ -413,6 +417,7 @@ func (p *schemaValidatorsPool) RedeemValidator(s *SchemaValidator) {
 
 func (p *objectValidatorsPool) BorrowValidator() *objectValidator {
 	s := p.Get().(*objectValidator)
+	verifBorrow("objectValidators", s)
 
 	p.mx.Lock()
 	defer p.mx.Unlock()
@@ -431,6 +436,9 @@ func (p *objectValidatorsPool) BorrowValidator() *objectValidator {
 }
 
 func (p *objectValidatorsPool) RedeemValidator(s *objectValidator) {
+	if verifRedeem("objectValidators", s) {
+		return
+	}
 	p.mx.Lock()
 	defer p.mx.Unlock()
 	x, ok := p.debugMap[s]
@@ -447,6 +455,7 @@ func (p *objectValidatorsPool) RedeemValidator(s *objectValidator) {
 
 func (p *sliceValidatorsPool) BorrowValidator() *schemaSliceValidator {
 	s := p.Get().(*schemaSliceValidator)
+	verifBorrow("sliceValidators", s)
 
 	p.mx.Lock()
 	defer p.mx.Unlock()
@@ -465,6 +474,9 @@ func (p *sliceValidatorsPool) BorrowValidator() *schemaSliceValidator {
 }
 
 func (p *sliceValidatorsPool) RedeemValidator(s *schemaSliceValidator) {
+	if verifRedeem("sliceValidators", s) {
+		return
+	}
 	p.mx.Lock()
 	defer p.mx.Unlock()
 	x, ok := p.debugMap[s]
@@ -481,6 +493,7 @@ func (p *sliceValidatorsPool) RedeemValidator(s *schemaSliceValidator) {
 
 func (p *itemsValidatorsPool) BorrowValidator() *itemsValidator {
 	s := p.Get().(*itemsValidator)
+	verifBorrow("itemsValidators", s)
 
 	p.mx.Lock()
 	defer p.mx.Unlock()
@@ -499,6 +512,9 @@ func (p *itemsValidatorsPool) BorrowValidator() *itemsValidator {
 }
 
 func (p *itemsValidatorsPool) RedeemValidator(s *itemsValidator) {
+	if verifRedeem("itemsValidators", s) {
+		return
+	}
 	p.mx.Lock()
 	defer p.mx.Unlock()
 	x, ok := p.debugMap[s]
@@ -515,6 +531,7 @@ func (p *itemsValidatorsPool) RedeemValidator(s *itemsValidator) {
 
 func (p *basicCommonValidatorsPool) BorrowValidator() *basicCommonValidator {
 	s := p.Get().(*basicCommonValidator)
+	verifBorrow("basicCommonValidators", s)
 
 	p.mx.Lock()
 	defer p.mx.Unlock()
@@ -533,6 +550,9 @@ func (p *basicCommonValidatorsPool) BorrowValidator() *basicCommonValidator {
 }
 
 func (p *basicCommonValidatorsPool) RedeemValidator(s *basicCommonValidator) {
+	if verifRedeem("basicCommonValidators", s) {
+		return
+	}
 	p.mx.Lock()
 	defer p.mx.Unlock()
 	x, ok := p.debugMap[s]
@@ -549,6 +569,7 @@ func (p *basicCommonValidatorsPool) RedeemValidator(s *basicCommonValidator) {
 
 func (p *headerValidatorsPool) BorrowValidator() *HeaderValidator {
 	s := p.Get().(*HeaderValidator)
+	verifBorrow("headerValidators", s)
 
 	p.mx.Lock()
 	defer p.mx.Unlock()
@@ -567,6 +588,9 @@ func (p *headerValidatorsPool) BorrowValidator() *HeaderValidator {
 }
 
 func (p *headerValidatorsPool) RedeemValidator(s *HeaderValidator) {
+	if verifRedeem("headerValidators", s) {
+		return
+	}
 	p.mx.Lock()
 	defer p.mx.Unlock()
 	x, ok := p.debugMap[s]
@@ -583,6 +607,7 @@ func (p *headerValidatorsPool) RedeemValidator(s *HeaderValidator) {
 
 func (p *paramValidatorsPool) BorrowValidator() *ParamValidator {
 	s := p.Get().(*ParamValidator)
+	verifBorrow("paramValidators", s)
 
 	p.mx.Lock()
 	defer p.mx.Unlock()
@@ -601,6 +626,9 @@ func (p *paramValidatorsPool) BorrowValidator() *ParamValidator {
 }
 
 func (p *paramValidatorsPool) RedeemValidator(s *ParamValidator) {
+	if verifRedeem("paramValidators", s) {
+		return
+	}
 	p.mx.Lock()
 	defer p.mx.Unlock()
 	x, ok := p.debugMap[s]
@@ -617,6 +645,7 @@ func (p *paramValidatorsPool) RedeemValidator(s *ParamValidator) {
 
 func (p *basicSliceValidatorsPool) BorrowValidator() *basicSliceValidator {
 	s := p.Get().(*basicSliceValidator)
+	verifBorrow("basicSliceValidators", s)
 
 	p.mx.Lock()
 	defer p.mx.Unlock()
@@ -635,6 +664,9 @@ func (p *basicSliceValidatorsPool) BorrowValidator() *basicSliceValidator {
 }
 
 func (p *basicSliceValidatorsPool) RedeemValidator(s *basicSliceValidator) {
+	if verifRedeem("basicSliceValidators", s) {
+		return
+	}
 	p.mx.Lock()
 	defer p.mx.Unlock()
 	x, ok := p.debugMap[s]
@@ -651,6 +683,7 @@ func (p *basicSliceValidatorsPool) RedeemValidator(s *basicSliceValidator) {
 
 func (p *numberValidatorsPool) BorrowValidator() *numberValidator {
 	s := p.Get().(*numberValidator)
+	verifBorrow("numberValidators", s)
 
 	p.mx.Lock()
 	defer p.mx.Unlock()
@@ -669,6 +702,9 @@ func (p *numberValidatorsPool) BorrowValidator() *numberValidator {
 }
 
 func (p *numberValidatorsPool) RedeemValidator(s *numberValidator) {
+	if verifRedeem("numberValidators", s) {
+		return
+	}
 	p.mx.Lock()
 	defer p.mx.Unlock()
 	x, ok := p.debugMap[s]
@@ -685,6 +721,7 @@ func (p *numberValidatorsPool) RedeemValidator(s *numberValidator) {
 
 func (p *stringValidatorsPool) BorrowValidator() *stringValidator {
 	s := p.Get().(*stringValidator)
+	verifBorrow("stringValidators", s)
 
 	p.mx.Lock()
 	defer p.mx.Unlock()
@@ -703,6 +740,9 @@ func (p *stringValidatorsPool) BorrowValidator() *stringValidator {
 }
 
 func (p *stringValidatorsPool) RedeemValidator(s *stringValidator) {
+	if verifRedeem("stringValidators", s) {
+		return
+	}
 	p.mx.Lock()
 	defer p.mx.Unlock()
 	x, ok := p.debugMap[s]
@@ -719,6 +759,7 @@ func (p *stringValidatorsPool) RedeemValidator(s *stringValidator) {
 
 func (p *schemaPropsValidatorsPool) BorrowValidator() *schemaPropsValidator {
 	s := p.Get().(*schemaPropsValidator)
+	verifBorrow("schemaPropsValidators", s)
 
 	p.mx.Lock()
 	defer p.mx.Unlock()
@@ -737,6 +778,9 @@ func (p *schemaPropsValidatorsPool) BorrowValidator() *schemaPropsValidator {
 }
 
 func (p *schemaPropsValidatorsPool) RedeemValidator(s *schemaPropsValidator) {
+	if verifRedeem("schemaPropsValidators", s) {
+		return
+	}
 	p.mx.Lock()
 	defer p.mx.Unlock()
 	x, ok := p.debugMap[s]
@@ -753,6 +797,7 @@ func (p *schemaPropsValidatorsPool) RedeemValidator(s *schemaPropsValidator) {
 
 func (p *formatValidatorsPool) BorrowValidator() *formatValidator {
 	s := p.Get().(*formatValidator)
+	verifBorrow("formatValidators", s)
 
 	p.mx.Lock()
 	defer p.mx.Unlock()
@@ -771,6 +816,9 @@ func (p *formatValidatorsPool) BorrowValidator() *formatValidator {
 }
 
 func (p *formatValidatorsPool) RedeemValidator(s *formatValidator) {
+	if verifRedeem("formatValidators", s) {
+		return
+	}
 	p.mx.Lock()
 	defer p.mx.Unlock()
 	x, ok := p.debugMap[s]
@@ -787,6 +835,7 @@ func (p *formatValidatorsPool) RedeemValidator(s *formatValidator) {
 
 func (p *typeValidatorsPool) BorrowValidator() *typeValidator {
 	s := p.Get().(*typeValidator)
+	verifBorrow("typeValidators", s)
 
 	p.mx.Lock()
 	defer p.mx.Unlock()
@@ -805,6 +854,9 @@ func (p *typeValidatorsPool) BorrowValidator() *typeValidator {
 }
 
 func (p *typeValidatorsPool) RedeemValidator(s *typeValidator) {
+	if verifRedeem("typeValidators", s) {
+		return
+	}
 	p.mx.Lock()
 	defer p.mx.Unlock()
 	x, ok := p.debugMap[s]
@@ -821,6 +873,7 @@ func (p *typeValidatorsPool) RedeemValidator(s *typeValidator) {
 
 func (p *schemasPool) BorrowSchema() *spec.Schema {
 	s := p.Get().(*spec.Schema)
+	verifBorrow("schemas", s)
 
 	p.mx.Lock()
 	defer p.mx.Unlock()
@@ -839,6 +892,9 @@ func (p *schemasPool) BorrowSchema() *spec.Schema {
 }
 
 func (p *schemasPool) RedeemSchema(s *spec.Schema) {
+	if verifRedeem("schemas", s) {
+		return
+	}
 	p.mx.Lock()
 	defer p.mx.Unlock()
 	x, ok := p.debugMap[s]
@@ -855,6 +911,7 @@ func (p *schemasPool) RedeemSchema(s *spec.Schema) {
 
 func (p *resultsPool) BorrowResult() *Result {
 	s := p.Get().(*Result).cleared()
+	verifBorrow("results", s)
 
 	p.mx.Lock()
 	defer p.mx.Unlock()
@@ -877,6 +934,9 @@ func (p *resultsPool) RedeemResult(s *Result) {
 		if len(s.Errors) > 0 || len(s.Warnings) > 0 {
 			panic("empty result should not mutate")
 		}
+		return
+	}
+	if verifRedeem("results", s) {
 		return
 	}
 	p.mx.Lock()
